@@ -3,6 +3,7 @@ package sxg
 import (
 	"bytes"
 	"fmt"
+	"math/big"
 	"net/url"
 	"strings"
 	"testing"
@@ -53,9 +54,10 @@ func TestPolicy(t *testing.T) {
 			statusUnderstood := true
 			var kinds []string
 			integrityEdit := ""
+			overflowEdit, overflowK := "", 0
 			nvar := c.Int("nvariations", 0, 3)
 			for i := 0; i < nvar; i++ {
-				kind := c.PickStr("variation", "validity", "lifetime", "integrity", "method", "req-header", "resp-header", "content-type", "cache-control", "expires-header", "status")
+				kind := c.PickStr("variation", "validity", "lifetime", "integrity", "number-overflow", "method", "req-header", "resp-header", "content-type", "cache-control", "expires-header", "status")
 				kinds = append(kinds, kind)
 				switch kind {
 				case "validity":
@@ -88,6 +90,11 @@ func TestPolicy(t *testing.T) {
 				case "integrity":
 					integrityEdit = c.PickStr("integrity", "mi-draft2", "digest/mi-sha256-03", "digest/mi-sha256", "mi-sha256-03")
 					p.Integrity = integrityEdit
+				case "number-overflow":
+					// the (unsigned) Signature header states date or expires plus k*2^64: not a
+					// representable structured-header integer, so the header is invalid
+					overflowEdit = c.PickStr("overflow.param", "expires", "date")
+					overflowK = c.Int("overflow.k", 1, 4)
 				case "method":
 					if l.Version != "1b3" {
 						l.Method = c.PickStr("method", "GET", "HEAD", "POST", "PUT", "DELETE", "OPTIONS", "get")
@@ -96,19 +103,31 @@ func TestPolicy(t *testing.T) {
 				case "req-header":
 					if l.Version != "1b3" {
 						var name string
-						if c.Bool("req.banned") {
-							name = randCase(c, "req.case", bannedReq[c.Pick("req.name", len(bannedReq))])
-						} else {
-							name = randCase(c, "req.case", lookalikeReq[c.Pick("req.look", len(lookalikeReq))])
+						switch c.Pick("req.class", 3) {
+						case 0:
+							name = bannedReq[c.Pick("req.name", len(bannedReq))]
+						case 1:
+							name = lookalikeReq[c.Pick("req.look", len(lookalikeReq))]
+						default: // banned as a RESPONSE field, harmless in a request
+							name = bannedResp[c.Pick("req.cross", len(bannedResp))]
+						}
+						if c.Bool("req.recase") {
+							name = randCase(c, "req.case", name)
 						}
 						l.ReqHeaders = append(l.ReqHeaders, gen.HV{Name: name, Value: "v"})
 					}
 				case "resp-header":
 					var name string
-					if c.Bool("resp.banned") {
-						name = randCase(c, "resp.case", bannedResp[c.Pick("resp.name", len(bannedResp))])
-					} else {
-						name = randCase(c, "resp.case", lookalikeResp[c.Pick("resp.look", len(lookalikeResp))])
+					switch c.Pick("resp.class", 3) {
+					case 0:
+						name = bannedResp[c.Pick("resp.name", len(bannedResp))]
+					case 1:
+						name = lookalikeResp[c.Pick("resp.look", len(lookalikeResp))]
+					default: // banned as a REQUEST field, harmless in a response
+						name = bannedReq[c.Pick("resp.cross", len(bannedReq))]
+					}
+					if c.Bool("resp.recase") {
+						name = randCase(c, "resp.case", name)
 					}
 					l.RespHeaders = append(l.RespHeaders, gen.HV{Name: name, Value: "v"})
 				case "content-type":
@@ -166,14 +185,22 @@ func TestPolicy(t *testing.T) {
 				c.Outcome("sign-refused")
 				return
 			}
-			if integrityEdit != "" {
+			if integrityEdit != "" || overflowEdit != "" {
 				label, ps, perr := refsxg.ParseSignature(pub.SignatureHeaderValue)
 				if perr != nil {
 					return
 				}
 				for i := range ps {
-					if ps[i].Key == "integrity" {
+					if ps[i].Key == "integrity" && integrityEdit != "" {
 						ps[i].Raw = refsxg.RawString(integrityEdit)
+					}
+					if ps[i].Key == overflowEdit {
+						v := new(big.Int).Lsh(big.NewInt(int64(overflowK)), 64)
+						base := l.Date
+						if overflowEdit == "expires" {
+							base = l.Expires
+						}
+						ps[i].Raw = v.Add(v, big.NewInt(base)).String()
 					}
 				}
 				pub.SignatureHeaderValue = refsxg.FormatSignature(label, ps)
@@ -195,6 +222,9 @@ func TestPolicy(t *testing.T) {
 			for i := 0; i < nver; i++ {
 				tm := clientTime(c, l)
 				want, why := refsxg.Accept(p, tm.Unix(), int64(tm.Nanosecond()), statusUnderstood)
+				if overflowEdit != "" {
+					want, why = false, "signature parameter not a representable integer"
+				}
 				for j, e := range objs {
 					v := verify(c, e, tm, net)
 					if v.pi != nil {
